@@ -263,8 +263,8 @@ func runDeep(r *mon.Run, g *gen) {
 	for _, sh := range largeShapes {
 		for si, n := range sh.sizes {
 			for ei, enc := range deepEncs {
-				if !r.Thorough() && si > 0 && ei >= 2 {
-					continue // quick: the bigger sizes plain only
+				if !r.Thorough() && ((si == 0 && ei == 3) || (si > 0 && ei != si%2)) {
+					continue // quick: the bigger sizes in one plain encoding each
 				}
 				M := vschema.NewMsg(p.in)
 				sh.build(M.ProtoReflect(), n)
